@@ -2,9 +2,10 @@ import Driver.Cbor
 import Driver.Asm
 import Driver.Link
 import Driver.Json
+import Driver.Walk
 open Ipld.Driver
 
-def handlers : List (List String → Option String) := [cborHandler, asmHandler, linkHandler, jsonHandler]
+def handlers : List (List String → Option String) := [cborHandler, asmHandler, linkHandler, jsonHandler, walkHandler]
 
 def dispatch (line : String) : String :=
   let toks := (line.trimAscii.toString.splitOn " ").filter (· ≠ "")
